@@ -152,6 +152,8 @@ func c19Alphabet(tier string) []c19Req {
 			Client: func(c *client.PcClient, w *World) (any, error) { return c.GetProcessState(n) }})
 		add(c19Req{Label: "info(" + n + ")", Direct: func(r *app.ProjectRunner, w *World) (any, error) { return r.GetProcessInfo(n) },
 			Client: func(c *client.PcClient, w *World) (any, error) { return c.GetProcessInfo(n) }})
+		add(c19Req{Label: "ports(" + n + ")", Direct: func(r *app.ProjectRunner, w *World) (any, error) { return r.GetProcessPorts(n) },
+			Client: func(c *client.PcClient, w *World) (any, error) { return c.GetProcessPorts(n) }})
 		add(c19Req{Label: "stop(" + n + ")", Mutate: true, Direct: func(r *app.ProjectRunner, w *World) (any, error) { return nil, r.StopProcess(n) },
 			Client: func(c *client.PcClient, w *World) (any, error) { return nil, c.StopProcess(n) }})
 		add(c19Req{Label: "start(" + n + ")", Mutate: true, Direct: func(r *app.ProjectRunner, w *World) (any, error) { return nil, r.StartProcess(n) },
@@ -222,12 +224,13 @@ func c19Alphabet(tier string) []c19Req {
 func c19YAML(variant string) string {
 	// (the numbers are there for the JSON round trip of a REST update: 7 and 1048576 come back as float64)
 	b := PC{Name: "b", Lines: []string{"environment:", "  - 'K=1'", "vars:", "  BIG: 1048576", "  SMALL: 3", "  RATIO: 0.5"}}
-	pcs := []PC{{Name: "a", Restart: "no"}, b}
+	// (r has two replicas: its configuration keys r-0 / r-1 differ from its name)
+	pcs := []PC{{Name: "a", Restart: "no"}, b, {Name: "r", Lines: []string{"replicas: 2"}}}
 	switch variant {
 	case "change-b":
 		pcs[1].Lines = []string{"environment:", "  - 'K=2'", "vars:", "  BIG: 1048576", "  SMALL: 3", "  RATIO: 0.5"}
 	case "remove-b":
-		pcs = pcs[:1]
+		pcs = []PC{pcs[0], pcs[2]}
 	case "add-c":
 		pcs = append(pcs, PC{Name: "c"})
 	}
@@ -279,6 +282,15 @@ func c19Scenarios(tier string) []*Scenario {
 		mk([]int{i})
 		// requests the server works on for several seconds (restart back-off of 7 s; a process that ignores
 		// SIGTERM and is killed after 6 s): the client waits for the outcome like a direct caller
+		if l := alpha[i].Label; l == "ports(a)" || l == "state(a)" || l == "info(a)" {
+			// queries about a process that is registered but has no command yet (pending on a running dependency)
+			mk([]int{i})
+			sp := scs[len(scs)-1]
+			sp.ID += "-pending"
+			sp.YAML = projectYAML([]string{"vars:", "  N: 7"}, PC{Name: "a", Restart: "no", Deps: map[string]string{"b": "process_completed"}},
+				PC{Name: "b", Lines: []string{"environment:", "  - 'K=1'"}})
+			sp.API[0][0].When = func(w *World) bool { return w.launches["b#0"] > 0 }
+		}
 		if l := alpha[i].Label; l == "restart(a)" || l == "stop(a)" {
 			mk([]int{i})
 			sc := scs[len(scs)-1]
